@@ -151,9 +151,13 @@ func run() int {
 		defer os.RemoveAll(scratch)
 		sseed := uint64(seed)*1000003 + uint64(i)*7919 + 1
 		hard := budget*3 + 3*time.Minute
+		shrink := "25s"
+		if tier == "thorough" {
+			shrink = "90s"
+		}
 		args := []string{testBin, "-test.run", "^" + runName + "$", "-test.v", "-test.timeout", (hard + time.Minute).String(),
 			"-rapid.checks", strconv.Itoa(nchecks), "-rapid.seed", strconv.FormatUint(sseed, 10),
-			"-rapid.shrinktime", "60s", "-rapid.nofailfile"}
+			"-rapid.shrinktime", shrink, "-rapid.nofailfile"}
 		env := pipe.Env(append([]string{
 			"VERIF_SNAP=" + snap.Root, "VERIF_OUT=" + sdir, "VERIF_TIER=" + tier,
 			"VERIF_SHARD=" + strconv.Itoa(i), "VERIF_SHARD_SEED=" + strconv.FormatUint(sseed, 10),
@@ -234,7 +238,7 @@ func run() int {
 		"distinct_nontrivial": len(total.Nontrivial),
 		"rule":                cfg.Rule,
 		"samples":             total.Samples,
-		"cases_drawn":         total.Cases,
+		"property_invocations_incl_shrinking": total.Cases,
 		"features":            total.Features,
 		"excluded_by_construction": total.Excluded,
 		"discards":            total.Discards,
